@@ -133,6 +133,42 @@ def main(argv=None):
                     shutil.rmtree(tmp, ignore_errors=True)
             ctx.mutants["seeded"] = seeded
             print(f"[{pid}] seeded changes: {seeded}")
+            # false-alarm self-check: behaviour-preserving refactorings written by independent sub-agents (kept under /verif/benign, each with a
+            # characterisation digest that is identical before/after) must leave this check exactly as it is on the unchanged tree
+            benign = []
+            bdir = os.path.join(VERIF, "benign")
+
+            def run_at(repo_dir):
+                q = subprocess.run([sys.executable, "-B", "-m", "gxstatic.run", pid, "--repo", repo_dir, "--no-evidence", "--json"], cwd=VERIF, capture_output=True, text=True)
+                js = [l for l in q.stdout.splitlines() if l.startswith("JSON:")]
+                known_n = len(json.loads(js[0][5:])["known"]) if js else None
+                return q.returncode, known_n
+            base_rc, base_known = run_at(prog.repo)
+            jobs = []
+            for d in sorted(os.listdir(bdir)) if os.path.isdir(bdir) else []:
+                pd = os.path.join(bdir, d, "patch.diff")
+                if os.path.exists(pd):
+                    jobs.append((d, pd))
+
+            def one(job):
+                d, pd = job
+                tmp = tempfile.mkdtemp(prefix="gxstatic-benign-")
+                try:
+                    shutil.copytree(os.path.join(prog.repo, "src"), os.path.join(tmp, "src"), ignore=shutil.ignore_patterns("__pycache__"))
+                    pr = subprocess.run(["patch", "-p1", "-s", "-F3", "-i", pd], cwd=tmp, capture_output=True, text=True)
+                    if pr.returncode:
+                        return (d, "stale")
+                    rc_, kn = run_at(tmp)
+                    return (d, "silent" if (rc_ == base_rc and kn == base_known) else f"ALARM rc={rc_} known={kn} (base rc={base_rc} known={base_known})")
+                finally:
+                    shutil.rmtree(tmp, ignore_errors=True)
+            with cf.ThreadPoolExecutor(max_workers=8) as ex:
+                benign = list(ex.map(one, jobs))
+            ctx.mutants["benign"] = benign
+            alarms = [b for b in benign if b[1].startswith("ALARM")]
+            print(f"[{pid}] benign refactorings: {sum(1 for b in benign if b[1] == 'silent')}/{len(benign)} silent" + (f", alarms: {alarms}" if alarms else ""))
+            if alarms:
+                raise AnalysisError(f"false alarms on behaviour-preserving refactorings: {alarms}")
             missed = [d for d, st in seeded if st == "MISSED"]
             if missed:
                 raise AnalysisError(f"seeded changes not reported: {missed}")
